@@ -1963,12 +1963,12 @@ class unyt_array(np.ndarray):
                     # binary operation would need to scan over all the
                     # elements of both arrays to check for arrays filled
                     # with zeros
-                    if not isinstance(i0, unyt_array) or not isinstance(i1, unyt_array):
-                        any_nonzero = [np.count_nonzero(i0), np.count_nonzero(i1)]
-                        if any_nonzero[0] == 0:
-                            u0 = u1
-                        elif any_nonzero[1] == 0:
-                            u1 = u0
+                    # only an operand that carries no units at all (a number, a
+                    # bare array or sequence of numbers) can be such a zero
+                    if getattr(inp0, "units", None) is None and np.count_nonzero(i0) == 0:
+                        u0 = u1
+                    elif getattr(inp1, "units", None) is None and np.count_nonzero(i1) == 0:
+                        u1 = u0
                     if not u0.same_dimensions_as(u1):
                         if unit_operator is _comparison_unit:
                             # we allow comparisons between data with
